@@ -31,7 +31,13 @@ def containers(x, acc):
 def check_case(spec, inst, mo, rnd, res=None):
     from maltoolbox.language import LanguageGraph, LanguageClassesFactory
     from maltoolbox.attackgraph import AttackGraph
-    lg = LanguageGraph(copy.deepcopy(spec))
+    try:
+        lg = LanguageGraph(copy.deepcopy(spec))
+    except Exception as e:
+        # the language graph asks for the steps of every type while it is built: a resolver that corrupts the
+        # specification makes a later type unresolvable
+        return Violation(what=f'building the language graph of a well-formed language raises {type(e).__name__}',
+                         fingerprint='C03:language-graph-raises', replay={'spec': spec, 'inst': inst, 'error': str(e)[:300]})
     snapshot = copy.deepcopy(lg._lang_spec)
     spec_containers = containers(lg._lang_spec, set())
     ref = Ref(spec, inst)
